@@ -22,7 +22,19 @@ class Default:
         return "<default {}>".format(self.name)
 
 
-DEFAULTS = {n: Default(n) for n in POSONLY + POK + KWONLY}
+class AnyEqDefault(Default):
+    """A default value that claims to be equal to everything (like unittest.mock.ANY)."""
+
+    def __eq__(self, other: Any) -> bool:
+        return True
+
+    def __ne__(self, other: Any) -> bool:
+        return False
+
+    __hash__ = Default.__hash__
+
+
+DEFAULTS = {n: (AnyEqDefault(n) if n in ("b", "d", "f") else Default(n)) for n in POSONLY + POK + KWONLY}
 KWVAL = {n: Default("kw:" + n) for n in POSONLY + POK + KWONLY + ["zz"]}
 
 
